@@ -14,7 +14,7 @@ pub trait Factory {
     fn keylen(&self) -> usize;
     fn supports(&self, kind: &str) -> bool;
     fn cid(&self, key: &[u8]) -> u32;
-    fn make(&self, kind: &str, dir: &str, key: &[u8], iv: &[u8], via: &str) -> Result<Box<dyn Obj>, Res>;
+    fn make(&self, kind: &str, dir: &str, key: &[u8], iv: &[u8], via: &str, bpos: Option<u128>) -> Result<Box<dyn Obj>, Res>;
     fn import(&self, kind: &str, dir: &str, key: &[u8], state: &[u8], pos: i64) -> Result<Box<dyn Obj>, Res>;
 }
 
@@ -73,9 +73,12 @@ macro_rules! flag {
 }
 
 macro_rules! ctr_arms {
-    ($kind:ident, $dir:ident, $key:ident, $iv:ident, $via:ident, $L:ty, $name:expr, $flavor:ty) => {
+    ($kind:ident, $dir:ident, $key:ident, $iv:ident, $via:ident, $bpos:ident, $L:ty, $name:expr, $flavor:ty) => {
         if $kind == $name {
-            let core: ctr::CtrCore<$L, $flavor> = construct($key, $iv, $via)?;
+            let mut core: ctr::CtrCore<$L, $flavor> = construct($key, $iv, $via)?;
+            if let Some(b) = $bpos {
+                core.set_bpos_u128(b);
+            }
             return Ok(Box::new(Strm(StreamCipherCoreWrapper::from_core(core))));
         }
         if $kind == concat!($name, "core") {
@@ -118,7 +121,7 @@ macro_rules! factory {
                 }
             }
             #[allow(unreachable_code)]
-            fn make(&self, kind: &str, dir: &str, key: &[u8], iv: &[u8], via: &str) -> Result<Box<dyn Obj>, Res> {
+            fn make(&self, kind: &str, dir: &str, key: &[u8], iv: &[u8], via: &str, bpos: Option<u128>) -> Result<Box<dyn Obj>, Res> {
                 type L = Logged<$c>;
                 let enc = dir == "enc";
                 match kind {
@@ -208,20 +211,23 @@ macro_rules! factory {
                     }
                 });
                 opt!($c32, {
-                    ctr_arms!(kind, dir, key, iv, via, L, "ctr32be", ctr::flavors::Ctr32BE);
-                    ctr_arms!(kind, dir, key, iv, via, L, "ctr32le", ctr::flavors::Ctr32LE);
+                    ctr_arms!(kind, dir, key, iv, via, bpos, L, "ctr32be", ctr::flavors::Ctr32BE);
+                    ctr_arms!(kind, dir, key, iv, via, bpos, L, "ctr32le", ctr::flavors::Ctr32LE);
                 });
                 opt!($c64, {
-                    ctr_arms!(kind, dir, key, iv, via, L, "ctr64be", ctr::flavors::Ctr64BE);
-                    ctr_arms!(kind, dir, key, iv, via, L, "ctr64le", ctr::flavors::Ctr64LE);
+                    ctr_arms!(kind, dir, key, iv, via, bpos, L, "ctr64be", ctr::flavors::Ctr64BE);
+                    ctr_arms!(kind, dir, key, iv, via, bpos, L, "ctr64le", ctr::flavors::Ctr64LE);
                 });
                 opt!($c128, {
-                    ctr_arms!(kind, dir, key, iv, via, L, "ctr128be", ctr::flavors::Ctr128BE);
-                    ctr_arms!(kind, dir, key, iv, via, L, "ctr128le", ctr::flavors::Ctr128LE);
+                    ctr_arms!(kind, dir, key, iv, via, bpos, L, "ctr128be", ctr::flavors::Ctr128BE);
+                    ctr_arms!(kind, dir, key, iv, via, bpos, L, "ctr128le", ctr::flavors::Ctr128LE);
                 });
                 opt!($belt, {
                     if kind == "belt" {
-                        let core: belt_ctr::BeltCtrCore<L> = construct(key, iv, via)?;
+                        let mut core: belt_ctr::BeltCtrCore<L> = construct(key, iv, via)?;
+                        if let Some(b) = bpos {
+                            core.set_bpos_u128(b);
+                        }
                         return Ok(Box::new(Strm(StreamCipherCoreWrapper::from_core(core))));
                     }
                     if kind == "beltcore" {
@@ -229,7 +235,7 @@ macro_rules! factory {
                         return Ok(Box::new(CoreObj(core)));
                     }
                 });
-                let _ = dir;
+                let _ = (dir, bpos);
                 Err(Res::Unsupported)
             }
             fn import(&self, kind: &str, dir: &str, key: &[u8], state: &[u8], pos: i64) -> Result<Box<dyn Obj>, Res> {
@@ -243,7 +249,7 @@ macro_rules! factory {
                         Ok(Box::new(BufD(cfb_mode::BufDecryptor::from_state(c, blk, pos as usize))))
                     };
                 }
-                self.make(kind, dir, key, state, "inner")
+                self.make(kind, dir, key, state, "inner", None)
             }
         }
     };
